@@ -54,7 +54,7 @@ class C13(Check):
                       "server", "process lifecycle: atexit handlers, exit "
                       "status, kill (SimProc)"],
     }
-    tiers = {"quick": dict(runs=800, budget=60),
+    tiers = {"quick": dict(runs=2000, budget=60),
              "thorough": dict(runs=30000, budget=720)}
     expected_probes = ["dest_sharded_flushed_by_exit_handler", "remote_source",
                       "remote_sharded_source", "copy_info", "dtype_widened",
